@@ -14,7 +14,7 @@ use std::sync::atomic::{AtomicU64, Ordering};
 use std::sync::{Arc, Mutex};
 
 pub fn n_sequences(tier: Tier) -> u64 {
-    tier.pick(3, 20)
+    tier.pick(5, 20)
 }
 pub fn worker_counts(tier: Tier) -> Vec<usize> {
     match tier {
@@ -23,7 +23,7 @@ pub fn worker_counts(tier: Tier) -> Vec<usize> {
     }
 }
 pub fn n_delay_seeds(tier: Tier) -> u64 {
-    tier.pick(3, 8)
+    tier.pick(4, 8)
 }
 pub fn count(tier: Tier) -> u64 {
     n_sequences(tier) * worker_counts(tier).len() as u64 * n_delay_seeds(tier)
